@@ -61,7 +61,9 @@ Reach(fabs, a, ep) ==
   a.mode # "Group" \/ \E f \in fabs : f.idx = a.fab /\ \E g \in DOMAIN f.groups : g = a.grp /\ ep \in f.groups[g]
 
 (* ---- universe ---- *)
-Nodes == {11, 12}
+\* 65537, 65538, 131073: ordinary node ids whose low 32 bits read like the tags (1, v1), (1, v2), (2, v1) - a node id is
+\* never a tag
+Nodes == {11, 12, 65537, 65538, 131073}
 Cats == {[id |-> 1, ver |-> 1], [id |-> 1, ver |-> 2], [id |-> 2, ver |-> 1]}
 Subj(k, a, b) == [k |-> k, a |-> a, b |-> b]      \* node: a = node id; cat: a = id, b = version; grp: a = group id
 SubjLists == {Null, List(<<>>)} \cup {List(<<Subj("node", n, 0)>>) : n \in Nodes}
